@@ -136,6 +136,21 @@ func genC14Project(rng *rand.Rand, idx int, kind string) c14Project {
 			fmt.Fprintf(&sb, "import \"{{PROJ}}/m%d\" as m%d;\n", i, i)
 		}
 	}
+	// at least two modules start from main, so that there is more than one possible parse order
+	for cnt, i := 0, n-1; i >= 0; i-- {
+		if fromMain[i] {
+			cnt++
+		}
+		if i == 0 && cnt < 2 {
+			for j := n - 1; j >= 0 && cnt < 2; j-- {
+				if !fromMain[j] {
+					fromMain[j] = true
+					fmt.Fprintf(&sb, "import \"{{PROJ}}/m%d\" as m%d;\n", j, j)
+					cnt++
+				}
+			}
+		}
+	}
 	sb.WriteString("\nfn main() {\n")
 	for i := 0; i < n; i++ {
 		if !fromMain[i] {
